@@ -6,6 +6,6 @@ export GOTOOLCHAIN=local GOFLAGS=-mod=mod GOPROXY=off GOSUMDB=off
 mkdir -p bin work evidence replays
 (cd tools/go2lean && go1.26.8 build -o ../../bin/go2lean .)
 (cd /repo && /verif/bin/go2lean -src /repo -out /verif/lean/ClipVerif) || echo "go2lean reported untranslatable functions (checks will report them)"
-(cd lean && lake build ClipVerif oracle 2>&1 | tail -5)
+(cd lean && lake build ClipVerif oracle moracle 2>&1 | tail -5)
 (cd harness && cp /repo/go.sum . 2>/dev/null; go1.26.8 build -tags verif -o ../bin/hx .)
 echo setup done
